@@ -3,12 +3,12 @@ VIEW View
 CONSTANTS
   Names = {"a", "b", "name"}
   IntVals <- IV_small
-  Specials = {"none", "ref", "zz", "floatfrac", "mem"}
+  Specials = {"none", "ref"}
   DispNames = {"", "x"}
   MaxPieces = 2
   MaxExt = 1
   MaxDepth = 2
-  AsImpl = {}
+  AsImpl = {"PowMember"}
 INVARIANT TypeOK
 INVARIANT IsBijection
 INVARIANT LookupsTotal
